@@ -55,9 +55,13 @@ def run(ctx):
             via = []
             for rt in tb['arms'][s]['ret']:
                 for a in alts(rt):
+                    if q.is_err_term(a):
+                        continue
                     n_, inner = _c15.variant_of(a)
                     vs.append(n_)
-                    if inner[0] == 'agg' and inner[3]:
+                    if fn.endswith('CelContent::parse'):
+                        via.append(_c15.cel_arm_source(fx, inner) or 'unrecognised')
+                    elif inner[0] == 'agg' and inner[3]:
                         pl = inner[3][0][1]
                         via.append(pl[1] if pl[0] == 'call' else show(pl))
             ok = vs == [table.get(v)]
@@ -94,7 +98,7 @@ def run(ctx):
             ctx.inst('T', 'bytes_per_pixel', ok, 'bytes_per_pixel table %s; must be %s' % (got, want), tb['span'], key=bp.name + '|T')
         else:
             ctx.fail(bp.name + '|T|no-match', 'bytes_per_pixel: no single match on the format')
-    osz = ctx.anchor(PX + 'output_size')
+    osz = fx.body(PX + 'output_size')      # absent when written inline at its two uses: then I2 / N8 judge the product there
     if osz is not None:
         t = res(osz).ret()
         ok = t[0] == 'bin' and t[1] == 'Mul' and {('bpp' if (x[0] == 'call' and x[1].endswith('bytes_per_pixel') and is_param(x[2][0], 1)) else
